@@ -214,12 +214,43 @@ func concRun(r *rng, fsys fs.FileSystem, dir string, nGor, nKeys, opsPer int, wi
 	if withClose {
 		// Close racing with everything else
 		time.Sleep(time.Duration(200+r.intn(3000)) * time.Microsecond)
-		func() {
+		closed := make(chan struct{})
+		go func() {
+			defer close(closed)
 			defer guard("close")
 			_ = db.Close()
 		}()
+		stuck := ""
+		select {
+		case <-closed:
+		case <-time.After(20 * time.Second):
+			stuck = "Close does not return (20 s)"
+		}
 		close(stop)
-		wg.Wait()
+		all := make(chan struct{})
+		go func() { wg.Wait(); close(all) }()
+		if stuck == "" {
+			select {
+			case <-all:
+			case <-time.After(20 * time.Second):
+				stuck = "operations racing with Close never return (20 s): deadlock"
+			}
+		}
+		if stuck != "" {
+			buf := make([]byte, 1<<16)
+			buf = buf[:runtime.Stack(buf, true)]
+			lines := []string{stuck}
+			for _, l := range strings.Split(string(buf), "\n") {
+				if strings.Contains(l, "pogreb.(*DB)") {
+					lines = append(lines, strings.TrimSpace(l))
+				}
+				if len(lines) > 12 {
+					break
+				}
+			}
+			res.Findings = append(res.Findings, &Finding{Kind: "spec", Case: name, Cmd: "Close racing with a concurrent workload", Impl: lines, Expected: []string{"every call returns"}, Program: []string{}})
+			return
+		}
 	} else {
 		done := make(chan struct{})
 		go func() { wg.Wait(); close(done) }()
